@@ -12,7 +12,7 @@
 # See the License for the specific language governing permissions and
 # limitations under the License.
 import ast
-from typing import List, Tuple, get_args
+from typing import List, Tuple, get_args, get_origin
 
 from sympy import Symbol
 from sympy.logic.boolalg import Boolean
@@ -24,7 +24,7 @@ from . import Binding, Env, decompose_to_symbols, exceptions, translate_expressi
 def _type_size(ttype) -> int:
     if hasattr(ttype, "BIT_SIZE"):
         return ttype.BIT_SIZE
-    if len(get_args(ttype)) > 0:
+    if len(get_args(ttype)) > 0 or get_origin(ttype) is tuple:
         return sum(_type_size(a) for a in get_args(ttype))
     return 1
 
@@ -40,7 +40,7 @@ def _regroup_bits(bits: list, ttype) -> list:
         n = _type_size(a)
         if hasattr(a, "BIT_SIZE"):
             res.append(bits[i : i + n])
-        elif len(get_args(a)) > 0:
+        elif len(get_args(a)) > 0 or get_origin(a) is tuple:
             res.append(_regroup_bits(bits[i : i + n], a))
         else:
             res.append(bits[i])
